@@ -16,7 +16,9 @@ RULE = (
     "transition table every (state, action, event) with positive probability yields a successor s' with "
     "state_space[state_to_index(s')] == s' (a successor outside the box would be clipped onto a different vector and "
     "fail this). Non-trivial = parameterisation with at least one positive-probability transition whose successor "
-    "has a coordinate at its upper bound; distinct = distinct parameter set."
+    "has a coordinate at its upper bound; distinct = distinct parameter set. A quarter of the cases are LARGE parameterisations "
+    "(e.g. Mirjalili order limit up to 70 at useful life 2, Forest up to 3000 states) judged on sizes, duplicates, non-negativity "
+    "and the index of every listed state only (no transition table)."
 )
 ASSUMPTIONS = ["documented sizes are computed from the class docstrings (vf.ref_problems.sizes)"]
 
@@ -28,7 +30,32 @@ def plan(tier):
 
 
 def strategy(tier, shard):
-    return shipped.case_strategy(cap=300_000 if tier == "quick" else 2_000_000)
+    from hypothesis import strategies as st
+
+    base = shipped.case_strategy(cap=300_000 if tier == "quick" else 2_000_000)
+
+    @st.composite
+    def big(draw):
+        """Large parameterisations judged on sizes / duplicates / index of listed states only (no transition table)."""
+        kind = draw(st.sampled_from(["mirjalili", "hendrix", "de_moor", "forest"]))
+        if kind == "mirjalili":
+            m = draw(st.sampled_from([1, 2, 2, 3]))
+            q = draw(st.integers(6, {1: 200, 2: 70, 3: 24}[m]))
+            params = dict(max_demand=draw(st.integers(1, 30)), max_useful_life=m, max_order_quantity=q,
+                          useful_life_at_arrival_distribution_c_0=[0.3] * (m - 1), useful_life_at_arrival_distribution_c_1=[0.1] * (m - 1))
+        elif kind == "hendrix":
+            m = draw(st.integers(1, 2))
+            params = dict(max_useful_life=m, max_order_quantity_a=draw(st.integers(1, 14 if m == 1 else 9)),
+                          max_order_quantity_b=draw(st.integers(1, 14 if m == 1 else 9)), demand_poisson_mean_a=2.0, demand_poisson_mean_b=3.0)
+        elif kind == "de_moor":
+            m, L = draw(st.integers(1, 3)), draw(st.integers(1, 3))
+            params = dict(max_useful_life=m, lead_time=L, max_order_quantity=draw(st.integers(1, {2: 40, 3: 25, 4: 12, 5: 8}.get(m + L - 1, 200))),
+                          max_demand=draw(st.integers(1, 150)))
+        else:
+            params = dict(S=draw(st.integers(41, 3000)))
+        return dict(kind=kind, params=params, sizes_only=True)
+
+    return st.one_of(base, base, base, big())
 
 
 def judge(case):
@@ -36,6 +63,29 @@ def judge(case):
 
     kind, params = case["kind"], case["params"]
     classes = shipped.param_classes(kind, params)
+    if case.get("sizes_only"):
+        import jax
+        import numpy as np_
+
+        classes.append("sizes-only-large")
+        try:
+            problem = shipped.build_sut(kind, params)
+            S, A, E = np_.asarray(problem.state_space), np_.asarray(problem.action_space), np_.asarray(problem.random_event_space)
+            self_idx = np_.asarray(jax.jit(jax.vmap(problem.state_to_index))(problem.state_space))
+        except Exception as e:
+            return verdict_fail(sut_bucket(e), f"{kind} {params}: raised {e!r}", classes=classes)
+        exp = rp.sizes(kind, params)
+        if (len(S), len(A), len(E)) != exp:
+            return verdict_fail(f"{kind}:space-size", f"{params}: sizes {(len(S), len(A), len(E))}, documented {exp}", classes=classes)
+        for name, X in (("state", S), ("action", A), ("event", E)):
+            if len(np_.unique(X, axis=0)) != len(X):
+                return verdict_fail(f"{kind}:duplicate-{name}-rows", f"{params}", classes=classes)
+            if X.min() < 0:
+                return verdict_fail(f"{kind}:negative-{name}-component", f"{params}: min {X.min()}", classes=classes)
+        if not np_.array_equal(self_idx, np_.arange(len(S))):
+            i = int(np_.argmax(self_idx != np_.arange(len(S))))
+            return verdict_fail(f"{kind}:index-of-listed-state", f"{params}: state_to_index({S[i].tolist()}) = {int(self_idx[i])}, row {i}", classes=classes)
+        return verdict_ok(nontrivial=True, classes=classes, sample=dict(kind=kind, params=params, S=exp[0], A=exp[1], E=exp[2], sizes_only=True))
     try:
         problem = shipped.build_sut(kind, params)
         t = shipped.sut_tables(problem, want=("next", "prob", "index"))
